@@ -57,20 +57,26 @@ def se_dump_text(T, opts=None):
     edges = list(T.edges)
     gt = dict(T.gt)
     if orphans:
+        # face-less vertices: struts tied to one or several tissue vertices and / or to each other
         vmax = max(verts) + 3
         emax = max(e for e, _, _ in edges) + 3
         xs = [p[0] for p in verts.values()]
         ys = [p[1] for p in verts.values()]
-        prev = None
         real = sorted(verts)
+        made = []
+        ne = 0
         for i in range(orphans):
             vid = vmax + 2 * i
             verts[vid] = (round(max(xs) + 5.0 + 1.7 * i, 3), round(max(ys) + 5.0 + 0.9 * i, 3))
-            other = prev if (prev is not None and r.random() < 0.5) else r.choice(real)
-            eid = emax + 2 * i
-            edges.append((eid, vid, other))
-            gt[eid] = 1.0
-            prev = vid
+            others = set()
+            for _ in range(r.choice([1, 1, 2, 3])):
+                others.add(r.choice(made) if (made and r.random() < 0.35) else r.choice(real))
+            for other in sorted(others):
+                eid = emax + 2 * ne
+                ne += 1
+                edges.append((eid, vid, other) if r.random() < 0.5 else (eid, other, vid))
+                gt[eid] = 1.0
+            made.append(vid)
     for vid in sorted(verts):
         x, y = verts[vid]
         out.append(f"  {vid}   {x!r}  {y!r}")
@@ -85,6 +91,11 @@ def se_dump_text(T, opts=None):
         elook[(a, b)] = eid
         elook[(b, a)] = -eid
     cids = sorted(T.cells)
+    ndrop = min(opts.get("drop_faces", 0), max(0, len(cids) - 1))
+    if ndrop:
+        # a dump from which faces (and their bodies) were cut out while their vertices and edges stayed
+        dropped = set(r.sample(cids, ndrop))
+        cids = [c for c in cids if c not in dropped]
     for cid in cids:
         cyc = T.cells[cid]
         signed = [elook[(a, b)] for a, b in zip(cyc, cyc[1:] + cyc[:1])]
